@@ -35,6 +35,7 @@ type pconn struct {
 	proto  string // websocket sub-protocol ("" = plain TCP)
 	in     chan []byte
 	pend   []byte
+	eom    bool // pws only: the last Read delivered the end of a message
 	closed chan struct{}
 	once   sync.Once
 	mu     sync.Mutex
@@ -93,6 +94,22 @@ func (c *pconn) SetReadDeadline(t time.Time) error  { return nil }
 func (c *pconn) SetWriteDeadline(t time.Time) error { return nil }
 
 type pws struct{ *pconn }
+
+// Read follows the convention of the production transport (network/websocket websocketTransport.Read): the
+// bytes of one message, then (0, nil) once as the end-of-message marker, then the next message.
+// wsp.DecodeRequest reads a message up to that marker.
+func (w pws) Read(p []byte) (int, error) {
+	c := w.pconn
+	if c.eom {
+		c.eom = false
+		return 0, nil
+	}
+	n, err := c.Read(p)
+	if err == nil && n > 0 && len(c.pend) == 0 {
+		c.eom = true
+	}
+	return n, err
+}
 
 func (w pws) Subprotocol() string           { return w.proto }
 func (w pws) TextTransport() websocket.Conn { return w }
